@@ -15,7 +15,7 @@ func init() {
 	register(&propertyDef{
 		id:    "C14",
 		title: "a prepared workflow can be run again and concurrently",
-		rules: []ruleFunc{c14R1, c14R2, c14R3, c14R4, c14R5},
+		rules: []ruleFunc{c14R1, c14R2, c14R3, c14R4, c14R5, c14R6},
 		decided: "the run path never writes prepared state: no store, map update or element store whose target belongs to an executableWorkflow, DAGItem, OneOf/OptionalExpression, Lifecycle, Workflow or runnableStep value (R1; the same detector must find the known prepare-time writers, so it cannot pass vacuously); " +
 			"every field of the per-run state is initialised from a fresh allocation, a constant, the caller's arguments or a read-only field of the prepared workflow, the DAG specifically from Clone(), and no mutating graph method is invoked on the prepared DAG (R2); the expression annotations and node data are written only by the tabled prepare functions (R3); " +
 			"(thorough) the pluginsdk schema methods used at run time do not write their receiver (R4). Shared: sub-runs of a prepared workflow get the step context itself, not one a sibling run cancels (R5 = C05.R7).",
@@ -292,6 +292,36 @@ func c14R2(c *Ctx) {
 	mut := map[string]bool{"ResolveNode": true, "PushStartingNodes": true, "PopReadyNodes": true, "Connect": true, "ConnectDependency": true, "AddNode": true, "Remove": true, "DisconnectInbound": true, "DisconnectOutbound": true}
 	n := 0
 	cnt := map[string]int{}
+	// fields of the run state that hold handles into the prepared DAG (waitingOutputs keeps the prepared DAG's output
+	// nodes, for their ids): whatever is loaded from them is a prepared-DAG handle too (field-based, two rounds)
+	holdsPrepared := map[*types.Var]bool{}
+	isPreparedHandle := func(v ssa.Value) bool {
+		f := loadedField(v)
+		return f != nil && (f == dagPrepared || holdsPrepared[f])
+	}
+	for round := 0; round < 2; round++ {
+		for _, fn := range c.inPkgs(c.runFns(), pkgWorkflow) {
+			eachInstr(fn, func(r instrRef) {
+				st, ok := r.I.(*ssa.Store)
+				if !ok {
+					return
+				}
+				fa, ok := st.Addr.(*ssa.FieldAddr)
+				if !ok || fieldAddrVar(fa) == nil || fieldAddrVar(fa) == dagPrepared {
+					return
+				}
+				// only fields that can hold graph handles themselves (a node, a graph, a container of nodes): a pointer
+				// to the run state is not a handle just because one field of the run state is
+				if !strings.Contains(fieldAddrVar(fa).Type().String(), "go.arcalot.io/dgraph.") {
+					return
+				}
+				if derivesFromThroughCalls(st.Val, isPreparedHandle) {
+					holdsPrepared[fieldAddrVar(fa)] = true
+				}
+			})
+		}
+	}
+	c.Stats["run_state_fields_holding_prepared_dag_handles"] = len(holdsPrepared)
 	for _, fn := range c.inPkgs(c.runFns(), pkgWorkflow, pkgPlugin, pkgForeach) {
 		eachInstr(fn, func(r instrRef) {
 			cc := callCommon(r.I)
@@ -301,7 +331,7 @@ func c14R2(c *Ctx) {
 			n++
 			cnt[c.fnName(fn)+cc.Method.Name()]++
 			key := fmt.Sprintf("mutate:%s:%s#%d", c.fnName(fn), cc.Method.Name(), cnt[c.fnName(fn)+cc.Method.Name()])
-			fromPrepared := derivesFromThroughCalls(cc.Value, func(v ssa.Value) bool { return loadedField(v) == dagPrepared })
+			fromPrepared := derivesFromThroughCalls(cc.Value, isPreparedHandle)
 			c.verdict(!fromPrepared, rule, key, c.instrPos(r.I), "operates on the run's own graph", cc.Method.Name()+" is invoked on (a node of) the prepared DAG instead of the run's clone: resolution state leaks into every later run")
 		})
 	}
@@ -516,3 +546,122 @@ func c14R4(c *Ctx) {
 }
 
 var c14SchemaWriteTable = []string{}
+
+// C14.R6 the prepare path does not write into maps or slices its caller handed in.
+func c14R6(c *Ctx) {
+	const rule = "C14.R6"
+	c.explain("C14.R6 no function of the parse/prepare paths updates, deletes from or stores an element into a map or slice that it received as an argument of an entry point (an exported function or an interface method: Prepare's workflow context, LoadSchema's inputs and context, ...): the caller's value is shared with overlapping and later preparations of the same text — taking a file out of the context \"for the duration of the nested preparation\" makes a concurrent Prepare fail with `not found in current workflow context` (or die with concurrent map writes)")
+	scope := map[*ssa.Function][]string{}
+	for f, ch := range c.Scopes().parse {
+		scope[f] = ch
+	}
+	for f, ch := range c.Scopes().prepare {
+		scope[f] = ch
+	}
+	isEntryParam := func(v ssa.Value) bool {
+		p, ok := v.(*ssa.Parameter)
+		if !ok {
+			return false
+		}
+		if _, bound := paramBinding[p]; bound {
+			return false
+		}
+		if len(paramSites[p]) > 0 {
+			return false
+		}
+		switch p.Type().Underlying().(type) {
+		case *types.Map, *types.Slice:
+		default:
+			return false
+		}
+		fn := p.Parent()
+		if fn == nil || fn.Parent() != nil || len(fn.Params) == 0 {
+			return false
+		}
+		if fn.Signature.Recv() != nil && p == fn.Params[0] {
+			return false
+		}
+		// an entry point: exported, or a method (interface implementations are called through the interface)
+		return fn.Object() != nil && (fn.Object().Exported() || fn.Signature.Recv() != nil)
+	}
+	n := 0
+	cnt := map[string]int{}
+	for _, fn := range c.sortedFns(scope) {
+		if pkgPathOf(fn) == pkgCmd {
+			continue
+		}
+		eachInstr(fn, func(r instrRef) {
+			var target ssa.Value
+			what := ""
+			switch x := r.I.(type) {
+			case *ssa.MapUpdate:
+				target, what = x.Map, "map update"
+			case *ssa.Call:
+				if isBuiltinCall(x, "delete") && len(x.Call.Args) > 0 {
+					target, what = x.Call.Args[0], "delete"
+				}
+			case *ssa.Store:
+				if ia, ok := x.Addr.(*ssa.IndexAddr); ok {
+					if _, isSlice := ia.X.Type().Underlying().(*types.Slice); isSlice {
+						target, what = ia.X, "element store"
+					}
+				}
+			}
+			if target == nil {
+				return
+			}
+			n++
+			// only the container itself (not a value read out of it): strip nothing but copies, phis and parameter bindings
+			root := target
+			for i := 0; i < 8; i++ {
+				if p, ok := root.(*ssa.Parameter); ok {
+					if arg, ok := paramBinding[p]; ok {
+						root = arg
+						continue
+					}
+				}
+				if ct, ok := root.(*ssa.ChangeType); ok {
+					root = ct.X
+					continue
+				}
+				if u, ok := root.(*ssa.UnOp); ok && u.Op == token.MUL {
+					if al, ok := u.X.(*ssa.Alloc); ok {
+						if sv := soleStore(al); sv != nil {
+							root = sv
+							continue
+						}
+					}
+					if fv, ok := u.X.(*ssa.FreeVar); ok {
+						if cell := capturedCell(fv); cell != nil {
+							if sv := soleStore(cell); sv != nil {
+								root = sv
+								continue
+							}
+						}
+					}
+				}
+				break
+			}
+			bad := isEntryParam(root)
+			if p, ok := root.(*ssa.Parameter); ok && !bad {
+				for _, arg := range paramSites[p] {
+					if derivesFromAnySite(arg, isEntryParam) && sameContainerType(arg, p) {
+						bad = true
+					}
+				}
+			}
+			if !bad {
+				return
+			}
+			cnt[c.fnName(fn)]++
+			key := fmt.Sprintf("caller-owned:%s#%d", c.fnName(fn), cnt[c.fnName(fn)])
+			c.bad(rule, key, c.instrPos(r.I), fmt.Sprintf("%s: %s on %s, which the caller of %s handed in: the caller's value is changed while (and after) the workflow is prepared, so overlapping or repeated preparations of the same text interfere", c.fnName(fn), what, valueOrigin(target), c.fnName(root.Parent())))
+		})
+	}
+	c.ok(rule, "scanned", "-", fmt.Sprintf("%d container writes on the parse/prepare paths, none into an entry point's argument", n), n > 0)
+	c.minCount(rule, "container writes on the parse/prepare paths", n, 20)
+}
+
+func sameContainerType(a ssa.Value, p *ssa.Parameter) bool {
+	return types.Identical(a.Type(), p.Type())
+}
